@@ -31,9 +31,20 @@ if TYPE_CHECKING:
 
 class DocstringParser(AbstractDocstringParser):
     def __init__(self, parser: Parser, package_path: Path):
+        # Griffe names the loaded package relative to the first search path that contains it. We pass the parent of the
+        # top-most package explicitly, otherwise the name depends on the entries of sys.path (e.g. on the working
+        # directory if the program is run with "python -m").
+        top_package_path = package_path
+        while (top_package_path.parent / "__init__.py").exists():
+            top_package_path = top_package_path.parent
+
         while True:
             try:
-                self.griffe_build = load(package_path, docstring_parser=parser)
+                self.griffe_build = load(
+                    package_path,
+                    docstring_parser=parser,
+                    search_paths=[top_package_path.parent],
+                )
                 break
             except KeyError:
                 package_path = package_path.parent
